@@ -34,6 +34,21 @@ CHECKS = {
     "C19": ("exploration", "Seeded search over bursts of 1..5 updates routed in one loop iteration or across iterations to 1-3 real TCP handlers (transport high-water mark 0/1/64/64Ki so that drain() blocks and its completion order is seeded), to the real TTY handler on a simulated pool of 2..6 workers whose job effect and completion instants are seeded, and from the real client-side connection handler to a stub server; optionally one connection stalled for ever. Each connection's output must split into complete elements that equal the routed sequence (a prefix for the stalled one); routing a burst must not advance virtual time; all other connections must be complete at quiescence.",
             "asyncio's FIFO ready queue is kept; pool jobs on different workers are free to take effect in either order (superset of a real pool).",
             "deterministic simulation of drain/pool completion orders with per-connection output vs routed order"),
+    "C08": ("exploration", "Payload lengths are enumerated from the run index (0..96, windows around every length whose message crosses a multiple of 1024 bytes and the 2048-character threshold, 3000/4Ki/10K/64Ki; thorough: every length 0..3200, 64Ki, 1Mi) x content {random over all byte values, zeros, 0xFF} x formats (incl. empty and non-ASCII) x receivers {library client with Only on its BLOB connection, the same additionally Also on control, raw peers with policy unset/Never/Also/Only} x direction {download, upload through the client API, raw upload} x partial-BLOB faults (BLOB connection reset inside a payload; half an upload left pending, then closed) x read fragmentation {fixed:1024, fixed:1, fixed:7, random, whole, coalesce}; byte/format/size-exact comparison at every enabled receiver, no setBLOBVector at non-enabled ones, follow-up control and BLOB traffic must arrive on every live connection, step watchdog on the framing loops.",
+            "Policies are settled before the measured update (INDI enableBLOB race not demanded); uploads longer than the server-side threshold are known finding K03.",
+            "deterministic simulation with a payload-length sweep, stream fragmentation and partial-transfer faults; byte-exact oracle and liveness watchdogs"),
+    "C14": ("exploration", "Seeded search over handler configurations attached through the real @on decorator (0-2 Write and Change handlers per element, plain or coroutine, vetoing or not, shared between two elements; 0-2 Read handlers, plain or coroutine) on text, number and switch (AnyOfMany, OneOfMany) elements, with one vector possibly disabled, x operation sequences (client writes of one or two elements over the simulated wire, set_value(), direct assignment, changing and unchanged values, attribute reads and getProperties); a global trace of handler entries (with the element value at entry) and router publications is checked per operation: Write handlers exactly once with the requested value (none for assignments), plain ones before the value changes and coroutine ones after publication, veto => nothing changed/published/no Change, otherwise exactly one update carrying the value iff the vector is enabled, Change exactly once with (old, new) iff changed and after publication, plain Read handlers before the value is returned or published.",
+            "Elements with Read handlers are only read; multi-element writes get the weaker per-element counts.",
+            "deterministic simulation with a global handler/publication trace checked against the event contract"),
+    "C15": ("exploration", "Seeded search over streams of 1..40 def/set/del/ping/getProperties messages over 2 devices x 3 properties x 3 elements (redefinition with the same or another kind, partial updates, kind mismatches, unknown targets, empty and absent BLOB payloads, nameless delProperty) in random foreign spellings, delivered by a stub server over the fragmented simulated network to the real two-connection client (variant: setBLOBVector on the BLOB connection) or in-process to a SnoopingClient; after every applied message the client's public view is compared with an independent reference interpreter; at the end the client must have applied exactly what was sent, its receive tasks must be alive and a sentinel definition must be reflected. Awkward streams (wrong declared BLOB size, bad base64) are judged for survival only.",
+            "The stub server never duplicates traffic on both connections; empty text == absent text == empty BLOB.",
+            "deterministic simulation of a foreign server with per-message refinement check against a reference client model"),
+    "C16": ("exploration", "Streams as in C15 with callback operations at quiescence between deliveries: onevent with every combination of device/vector/element filter (absent, matching, non-matching) and event type, plain / coroutine / raising callbacks, rmonevent by uuid and by criteria. Each callback's log must equal (as a multiset, ignoring permitted None->None heads) the events an independent reference interpreter derives for the messages applied while it was registered; plain callbacks must never be invoked after removal; per element object and per vector object the value/state events must form an unbroken chain starting at None and ending at the current value; a raising callback must not stop the client.",
+            "A redefinition starts new chains; for coroutine callbacks invoked means dispatched; equal-byte BLOB replacements are not judged.",
+            "deterministic simulation with callback registration/removal interleaved with deliveries; reference-derived expected events"),
+    "C17": ("exploration", "On the virtual clock, 1-3 concurrent waits (condition {expect, initial, check} x event kind {value, state} x timeout {none, 0.5..4 s} x polling {off, (delay, interval)} x filters x start instant) face a timeline of matching and non-matching updates on a 0.25 s grid from 0 to 6 s, several possibly in one instant, injected directly or sent by a stub server through the simulated network (several messages in one read), with seeded tie-break of equal-time timers. Closed-form oracle: the wait returns exactly the first matching event (identified by its old/new pair) at its instant if that is before the timeout, otherwise raises at exactly start+timeout, otherwise stays pending; never both; getProperties is sent exactly at start+delay+k*interval before completion, with the waited device/property, and never afterwards; callbacks are back to the base count.",
+            "Ties between an event and the timeout instant are excluded by the generator; a poll tick at the completion instant is accepted either way; events at the very instant a wait starts are treated as ambiguous.",
+            "deterministic simulation on a virtual clock with a timing grid and closed-form expectations"),
     "C02": ("exploration", "Seeded search over (message sequence, spelling, receive world, threshold, stream partition), including exhaustive 1-, 2- and 3-cut sweeps of short streams, through the real Buffer and the real server/client/TTY read loops on a simulated network and thread pool; delivered messages compared structurally with what was sent, promptness checked after every piece, step watchdog for termination. Sampling, not proof.",
             "Trusts the harness message grammar/spelling writer and the structural comparison; kernel TCP segmentation is modelled as arbitrary cuts (a superset).",
             "deterministic simulation (seeded stream-partition schedules on a virtual-time loop, fault-free) with structural reference comparison"),
